@@ -32,8 +32,24 @@ Usage (see vf/props/c02.py, section 'concurrent'):
 
 Line points are installed inside the worker processes only (the first time a
 scenario runs there), so the sequential parts of a check pay nothing.
+
+Instruction-level mode (optional, `run(..., instructions=True)`): a window
+that lies inside ONE source line (`del TABLE[next(iter(TABLE))]`, `x.n += 1`)
+cannot be split by line points.  With instructions=True every BYTECODE
+INSTRUCTION of every function of the named modules is a scheduling point for
+that execution (kind 'ins:<function>:<offset>'; line points of the same code
+objects are silent meanwhile, they would only duplicate the first instruction
+of each line).  This multiplies the number of points by about ten, so use it
+for a few small pairs at a low preemption bound (worked example: the
+'warm caches' part of the concurrent section of vf/props/c02.py).  Executions
+with and without instructions=True can be mixed freely in one process.  In a
+process where the mode has been installed, line and instruction events switch
+themselves off outside scheduling windows (that makes long sequential
+histories before a race cheap) and race() re-arms them when it opens the
+window: open windows through race() there, not by setting S.window yourself.
 """
 import importlib
+import sys
 import types
 
 from vf import harness, pysched
@@ -91,15 +107,81 @@ def _class_functions(cls):
 
 
 _DONE = set()
+_FNS = {}                   # module spec -> its functions
+
+# instruction-level mode
+_INS_CODES = set()          # code objects armed with INSTRUCTION events
+_INS_ON = [False]           # is the execution in progress instruction-level?
+_INS_HOOKED = [False]
 
 
-def install(modules):
+def _on_instruction(code, offset):
+    if code not in _INS_CODES:
+        return pysched._on_instruction(code, offset)
+    S = pysched.CUR
+    if not _INS_ON[0] or S is None or not S.window:
+        # outside an instruction-level window the event is switched off at
+        # this location (one call per location, then free); race() re-arms
+        # all locations with restart_events() when such a window opens
+        if code in pysched._OFFS:
+            return pysched._on_instruction(code, offset)
+        return sys.monitoring.DISABLE
+    if not S.tracing or S.aborting or S.in_state_fn:
+        return None
+    me = S.by_ident.get(pysched.threading.get_ident())
+    if me is None or me is not S.current:
+        return None
+    S.point('ins:%s:%d' % (code.co_name, offset))
+    me.dirty = True         # any instruction may have stored something
+    return None
+
+
+def _on_line(code, line):
+    if _INS_ON[0] and code in _INS_CODES:
+        return None         # every instruction of this code is a point already
+    S = pysched.CUR
+    if (S is None or not S.window) and code in pysched._LINE_CODES:
+        # outside a window (set-up, warm-up histories): switched off at this
+        # location until race() re-arms everything for the next window
+        return sys.monitoring.DISABLE
+    return pysched._on_line(code, line)
+
+
+def _install_instructions(fns):
+    mon = sys.monitoring
+    if not _INS_HOOKED[0]:
+        # wrappers around the scheduler's own callbacks: code objects that
+        # were never armed here are handled exactly as before
+        mon.register_callback(pysched._TOOL, mon.events.INSTRUCTION,
+                              _on_instruction)
+        mon.register_callback(pysched._TOOL, mon.events.LINE, _on_line)
+        _INS_HOOKED[0] = True
+    stack = [getattr(getattr(f, '__func__', f), '__code__', None)
+             for f in fns]
+    while stack:
+        code = stack.pop()
+        if code is None or code in _INS_CODES:
+            continue
+        _INS_CODES.add(code)
+        cur_ev = mon.get_local_events(pysched._TOOL, code)
+        mon.set_local_events(pysched._TOOL, code,
+                             cur_ev | mon.events.INSTRUCTION)
+        # lambdas, nested functions and generator expressions too
+        stack.extend(k for k in code.co_consts
+                     if isinstance(k, types.CodeType))
+
+
+def install(modules, instructions=False):
     """Make every line of every function of the named modules (dotted names,
     resolved in the tree under test; 'module:Class' restricts to one class)
-    a scheduling point.  Idempotent."""
+    a scheduling point.  Idempotent.  instructions=True additionally arms
+    every bytecode instruction of those functions (used only by executions
+    started with run(..., instructions=True))."""
     harness.setup()
     for name in modules:
         if name in _DONE:
+            if instructions:
+                _install_instructions(_FNS[name])
             continue
         _DONE.add(name)
         modname, _, clsname = name.partition(':')
@@ -110,14 +192,22 @@ def install(modules):
             keep = {id(getattr(getattr(f, '__func__', f), '__code__', None))
                     for f in _class_functions(getattr(mod, clsname))}
             fns = [f for f in fns if id(f.__code__) in keep]
+        _FNS[name] = fns
         pysched.add_line_points(*fns)
+        if instructions:
+            _install_instructions(fns)
 
 
-def run(body, prefix, expect, budget, modules, horizon=200000):
-    install(modules)
-    return harness.run(body, prefix, tracing=True, expect=expect,
-                       horizon=horizon, visited=None,
-                       budget=0, lenient=budget == 'replay')
+def run(body, prefix, expect, budget, modules, horizon=200000,
+        instructions=False):
+    install(modules, instructions)
+    _INS_ON[0] = bool(instructions)
+    try:
+        return harness.run(body, prefix, tracing=True, expect=expect,
+                           horizon=horizon, visited=None,
+                           budget=0, lenient=budget == 'replay')
+    finally:
+        _INS_ON[0] = False
 
 
 def race(W, ops, names=None):
@@ -133,6 +223,8 @@ def race(W, ops, names=None):
             except Exception as e:          # judged by the caller
                 out[i] = ('exc', '%s: %s' % (type(e).__name__, e))
         return f
+    if _INS_HOOKED[0]:
+        sys.monitoring.restart_events()     # re-arm switched-off locations
     S.window = True
     agents = [S.spawn(runner(i, fn), name=(names or {}).get(i, 'op%d' % i))
               for i, fn in enumerate(ops)]
